@@ -5,6 +5,7 @@ import (
 	"go/types"
 	"regexp"
 	"sort"
+	"strconv"
 	"strings"
 
 	"golang.org/x/tools/go/ssa"
@@ -95,6 +96,34 @@ func histEqIn(st *State, xre *regexp.Regexp, set []string) int {
 		}
 	}
 	return res
+}
+
+// histLenPos evaluates "len(X) > 0" for the length expression matching xre on
+// the decided facts of the path (comparisons are kept in the normal forms
+// `len == c` / `len ∉ {…}` / `len < c`).
+func histLenPos(st *State, xre *regexp.Regexp) int {
+	for _, k := range sortedKeys(st.hist) {
+		f := st.hist[k]
+		if !xre.MatchString(f.X) {
+			continue
+		}
+		switch f.Kind {
+		case "eq":
+			if f.Eq != "" {
+				return b2i(f.Eq != "0")
+			}
+			for _, ne := range f.Ne {
+				if ne == "0" {
+					return 1
+				}
+			}
+		case "lt":
+			if n, err := strconv.ParseInt(f.Y, 10, 64); err == nil && n >= 1 && !f.Val {
+				return 1 // !(len < n), n ≥ 1
+			}
+		}
+	}
+	return -1
 }
 
 // histEqValue returns the constant the family is known to equal ("" if not known).
